@@ -402,6 +402,8 @@ func (r *adRun) fmtObs() string {
 	return "logfmt"
 }
 
+type adCtxKey struct{}
+
 func (r *adRun) exec(ev adEvent) (rec map[string]any) {
 	rec = map[string]any{"op": ev.Op}
 	defer func() {
@@ -412,7 +414,26 @@ func (r *adRun) exec(ev adEvent) (rec map[string]any) {
 			}
 		}
 	}()
+	// the context a record is logged with is not part of what decides its fate: live, carrying values,
+	// already cancelled, past its deadline - chosen as a function of the event, so that a replay repeats it
 	ctx := context.Background()
+	switch kind := (ev.Mi + ev.Sh + ev.V + ev.H + 400) % 4; kind {
+	case 1:
+		ctx = context.WithValue(ctx, adCtxKey{}, "v")
+		rec["ctx"] = "value"
+	case 2:
+		c2, cancel := context.WithCancel(ctx)
+		cancel()
+		ctx = c2
+		rec["ctx"] = "cancelled"
+	case 3:
+		c2, cancel := context.WithDeadline(ctx, time.Unix(1, 0))
+		defer cancel()
+		ctx = c2
+		rec["ctx"] = "expired"
+	default:
+		rec["ctx"] = "background"
+	}
 	switch ev.Op {
 	case "NewHandler":
 		rec["L"], rec["oi"] = ev.L, ev.Oi
